@@ -10,7 +10,7 @@ type Shape struct {
 
 var Shapes = []Shape{
 	{"prefix", []string{`(?:ab*){2}`, `(c[ab]){2,}`, `(?:ab){2}c`, `(?:ab*){2,3}`, `(abcd)|(abx)|(abcd)`, `abcd|abx|abcd`, `(?i)(?:abc)*`, `(?i)(abc)?`, `(?i)(?:abc){0,2}`, `(?:abc)*`, `(?:ab)?c`, `abc|abd|ab`, `(?i)abc|abd`, `ab(?:c|d)e`}},
-	{"landmark", []string{`\w+[bB]{1,2}[abAB]\z`, `[ab]*[a-c]{1,2}\w*a{1,2}$`, `\w+\s+at\s+\w+`, `\d+-\d+`, `[a-c]+x[a-c]+`}},
+	{"landmark", []string{`\w+(?:-|\.+)\w=`, `\w+(?:-|\.\.+)\w+=`, `[ab]+(?:-|\d+)[ab]=`, `\w+(?:-|[.,]+)\w+=\d`, `\w+(?:\.+|-)\w=`, `\w+[bB]{1,2}[abAB]\z`, `[ab]*[a-c]{1,2}\w*a{1,2}$`, `\w+\s+at\s+\w+`, `\d+-\d+`, `[a-c]+x[a-c]+`}},
 	{"bumpalong", []string{`(a*b)\1`, `(\w*b)\1`, `(?<x>a*b)c\k<x>`, `(?>[ab]+?[^a]+)[^a]?\Z`, `(?>a+?b)c`, `(?>(?:a+?b))c`, `a*b`, `.*b`, `.*?b`, `(?s).*a`, `\w*1`}},
 	{"findmode-anchor", []string{`\Aab`, `\Gab`, `ab\z`, `a.c$`, `^ab`, `(?m)^ab`, `ab$`, `(?m)ab$`, `\Ga`, `^`, `\z`, `a\Z`}},
 	{"findmode-bm", []string{`éab`, `aéb`, `abé`, `ёab`, `aёb`, `éab\d`, `\x{10000}ab`, `aab`, `aba`, `abab`, `éaé`, `ÿab`, `a\x80b`, `(?i)éab`, `(?i)abé`, `abcab`, `éa`, `bé`}},
